@@ -297,6 +297,12 @@ def mini_scenario(
     acts.append(("node-application-execute", {"node_name": "client_2", "application_name": "data-manipulation-bot"}))
     if kind != "switched":
         acts += router_actions("router_1")
+    # removals of applications that share their (port, protocol) key with other software of the node (nmap and the
+    # data-manipulation-bot both have no port; database-client and a run-time installed dos-bot both use 5432/tcp)
+    acts.append(("node-application-remove", {"node_name": "client_2", "application_name": "data-manipulation-bot"}))
+    acts.append(("node-application-remove", {"node_name": "client_2", "application_name": "nmap"}))
+    acts.append(("node-application-remove", {"node_name": "client_1", "application_name": "database-client"}))
+    acts.append(("node-application-remove", {"node_name": "client_1", "application_name": "nmap"}))
     acts += list(extra_actions)
     action_map = {i: {"action": a, "options": o} for i, (a, o) in enumerate(acts)}
     if action_order == "desc":  # same numbering, listed in another order (legal: the schema only wants every number present)
@@ -443,3 +449,14 @@ def _is_int(x) -> bool:
     except Exception:
         pass
     return isinstance(x, numbers.Integral)
+
+
+def mini_action_index(kind: str, action: str, **opts) -> int:
+    """Number of the (first) entry `action` with options `opts` in the defender's action map of mini_scenario(kind)."""
+    cfg = mini_scenario(kind)
+    for ag in cfg["agents"]:
+        am = ag.get("action_space", {}).get("action_map", {})
+        for i, ent in am.items():
+            if ent["action"] == action and all(ent["options"].get(k) == v for k, v in opts.items()):
+                return int(i)
+    raise KeyError((kind, action, opts))
